@@ -60,6 +60,25 @@ def witness_lines(fx):
         # all generics of this crate's public types are lifetimes; anything else cannot be generated
         args = ("<" + ", ".join(["'static"] * n) + ">") if n else ""
         lines.append((p, "fn _w_%s() { ss::<proguard::%s%s>(); }" % (name.lower() + str(len(lines)), name, args)))
+    # public functions returning `impl Trait`: the hidden type's auto traits leak through the opaque type although the
+    # signature does not mention them; witnessed through the function item itself (R is inferred as the hidden type)
+    for q, b in sorted(fx.bodies.items()):
+        if b["krate"] != "proguard" or not b.get("reachable_pub") or "impl " not in str(b.get("output", "")):
+            continue
+        if b.get("kind") not in ("Fn", "AssocFn"):
+            continue
+        n_in = len(b.get("inputs") or [])
+        own_ty_generics = [g for g in (b.get("generics") or []) if not g.startswith("'")]
+        if b.get("impl_self_dp"):
+            own_ty_generics = [g for g in own_ty_generics if ("<" + g) not in b.get("impl_self", "") and (", " + g) not in b.get("impl_self", "")]
+            name = "proguard::%s::%s" % (b["impl_self_dp"].split("::")[-1], b["name"])
+        else:
+            name = "proguard::%s" % b["name"]
+        label = "opaque-return:" + q
+        if n_in > 4 or own_ty_generics:
+            problems.append((label, "cannot generate a witness for %d parameter(s) / type generics %s" % (n_in, own_ty_generics)))
+            continue
+        lines.append((label, "fn _w_opq%d() { a%d(%s); }" % (len(lines), n_in, name)))
     return lines, problems
 
 
@@ -72,7 +91,9 @@ def run(ctx, rep):
         sfx = "" if not feat else "@" + feat
 
         # ---- C20.1 witnesses ------------------------------------------------
-        lines, _ = witness_lines(fx)
+        lines, problems = witness_lines(fx)
+        for label, why in problems:
+            rep.undecidable("C20.1" + sfx, "C20.1/send-sync/%s" % label, loc=label, construct=why)
         rep.floor("C20.1" + sfx, len(lines), 20, "reachable public types to witness")
         ok, errors, foreign, stderr = W.run_witness("witness-pos-" + cfg, lines, features=feat)
         if foreign:
@@ -96,10 +117,13 @@ def run(ctx, rep):
         if feat == "":
             # negative twins: the same generic function must reject the controls
             neg = [(n, "fn _n_%s() { ss::<pgcontrols::types::%s>(); }" % (n.lower(), n)) for n in NEG_CONTROLS]
+            neg.append(("bad_opaque", "fn _n_opq() { a1(pgcontrols::types::bad_opaque); }"))
             ok2, errors2, _, _ = W.run_witness("witness-neg", neg)
             for n in NEG_CONTROLS:
                 hit = [e for e in errors2 if e["label"] == n and e["code"] == "E0277"]
                 rep.control("C20.1", bool(hit), "ss::<%s>() rejected with E0277" % n)
+            hit = [e for e in errors2 if e["label"] == "bad_opaque" and e["code"] == "E0277"]
+            rep.control("C20.1", bool(hit), "a1(bad_opaque): hidden type behind `impl Iterator` rejected with E0277")
 
         # ---- C20.2 type-tree walk ---------------------------------------------
         n_adts = 0
